@@ -1,0 +1,16 @@
+//go:build verif
+
+// Contracts checked by /verif (govc). Comments only; not part of any normal build.
+// The `layout` directive synthesises requires/ensures from /verif/specs/layouts (DESIGN.md section 3.4).
+
+package cmpp
+
+//@ func (s *SubPduDeliveryContent) IEncode
+//@   theory T1
+//@   layout enc
+
+//@ func (s *SubPduDeliveryContent) IDecode
+//@   theory T1
+//@   layout dec
+
+// ---- hand-written below ----
